@@ -14,6 +14,7 @@ Every answer is the positions line `a=<appended> c=<consumed> k=<groupAck> q=<se
 `crash` answers `down`; `recover` appends the durable observation:
   files=<seq:count,...>   rows per log entry in the durable data files
   unres=<seq,...>         entries with a row in the files whose names do not resolve durably
+  iunres=<m.t,...>        durable index entries whose metric name / tag value is not durable
   names=<m,...> tagv=<m.t,...> idx=<m.t,...>   durable dictionary content reachable by name
 The code shape (`PrepareFlush` condition) is the one regenerated from /repo (Generated.C07.swapOnEmpty).
 -/
@@ -61,10 +62,11 @@ def showFiles (st : St) : String :=
 
 def showDurable (st : St) : String :=
   let unres := (fileRows st).filter (fun r => !rowResolves st r)
+  let iunres := st.index.dur.filter (fun p => !idxResolves st p)
   let names := st.metric.dur
   let tagv := st.tagv.dur.filter (fun p => st.metric.dur.contains p.1)
   let idx := st.index.dur.filter (fun p => st.metric.dur.contains p.1 && st.tagv.dur.contains p)
-  s!"files={showFiles st} unres={showNats (unres.map (fun r => r.seq.toNat))} names={showNats names} tagv={showPairs tagv} idx={showPairs idx}"
+  s!"files={showFiles st} unres={showNats (unres.map (fun r => r.seq.toNat))} iunres={showPairs iunres} names={showNats names} tagv={showPairs tagv} idx={showPairs idx}"
 
 def ev (st : St) (e : Ev) : St × String :=
   let st' := step cfg st e
